@@ -184,8 +184,8 @@ def locate_fn(src, name, lo=0, hi=None):
     raise ExtractError("lost anchor: fn %s" % name)
 
 
-def locate_struct(src, name):
-    m = find_code(src, r"\bstruct\s+%s\b[^{;]*\{" % re.escape(name))
+def locate_struct(src, name, kw="struct"):
+    m = find_code(src, r"\b%s\s+%s\b[^{;]*\{" % (kw, re.escape(name)))
     if not m:
         raise ExtractError("lost anchor: struct %s" % name)
     o = m.end() - 1
@@ -381,7 +381,7 @@ def clean_signature(sig, notes):
 # ---------------------------------------------------------------------------------------------------
 # directive processing
 
-_DIRECTIVE = re.compile(r"/\*@extract\s+(fn|struct)\s+([^\n]*?)(?:[ \t]*\*/|\n(.*?)\*/)", re.S)
+_DIRECTIVE = re.compile(r"/\*@extract\s+(fn|struct|enum)\s+([^\n]*?)(?:[ \t]*\*/|\n(.*?)\*/)", re.S)
 _KV = re.compile(r"(\w+)=(\S+)")
 
 
@@ -492,19 +492,19 @@ def extract_fn(kv, payload, notes, falsify=None):
     return "%s\n%s\n{%s}\n" % (sig, spec, body)
 
 
-def extract_struct(kv, notes):
+def extract_struct(kv, notes, kw="struct"):
     path = os.path.join(REPO, kv["file"])
     if not os.path.isfile(path):
         raise ExtractError("lost anchor: file %s" % kv["file"])
     src = read(path)
-    s, o, e = locate_struct(src, kv["name"])
+    s, o, e = locate_struct(src, kv["name"], kw)
     text = src[s:e + 1]
     t2 = re.sub(r"^\s*///[^\n]*\n", "", text, flags=re.M)
     t2 = re.sub(r"\bpub(\s*\([^)]*\))?\s+", "", t2)
     t3 = re.sub(r"Box<\[([^\]]+)\]>", r"Vec<\1>", t2)
     if t3 != t2:
         notes.append("R4: Box<[T]> field(s) of struct %s -> Vec<T>" % kv["name"])
-    notes.append("extracted struct %s from %s" % (kv["name"], kv["file"]))
+    notes.append("extracted %s %s from %s" % (kw, kv["name"], kv["file"]))
     return "pub " + t3 + "\n"
 
 
@@ -517,7 +517,7 @@ def render(template_text, falsify=None):
         kv = dict(_KV.findall(m.group(2)))
         if kind == "fn":
             return extract_fn(kv, m.group(3) or "", notes, falsify)
-        return extract_struct(kv, notes)
+        return extract_struct(kv, notes, kind)
 
     out = _DIRECTIVE.sub(repl, template_text)
     return out, notes
